@@ -34,6 +34,7 @@ logging.disable(logging.CRITICAL)
 warnings.filterwarnings('ignore', category=RuntimeWarning, message='coroutine .* was never awaited')
 
 PID = 'pid'
+SIBLING_PID = 'sibling'
 MSG = 'm'
 STATE_OF_STR = {str(s): s.value for s in ps.ProcessState}
 TERMINAL = ('finished', 'excepted', 'killed')
@@ -115,6 +116,8 @@ class HComm(kiwipy.LocalCommunicator):
         self.bc_ids.discard(identifier)
 
     def broadcast_send(self, body, sender=None, subject=None, correlation_id=None):
+        if sender == SIBLING_PID:
+            return True         # the announcements of the sibling process are not part of the observation
         if isinstance(subject, str) and subject.startswith('state_changed') and sender is not None:
             idx = self.n_state
             self.n_state += 1
@@ -368,6 +371,13 @@ def final_value(f):
     return f
 
 
+class Sibling(plumpy.Process):
+    """a trivial second process sharing the communicator"""
+
+    def run(self):
+        return None
+
+
 class Run:
     """one process on its own deterministic loop with its own communicator"""
 
@@ -394,6 +404,15 @@ class Run:
             Hooked.RECORDER = None
         self.task = None
         if self.proc is not None:
+            # a second process on the same communicator that runs to its end before anything is sent to the first one: the
+            # subscriptions (and cleanups) of a process are its own, whatever other processes do
+            try:
+                sib = Sibling(loop=self.loop, communicator=self.lc, pid=SIBLING_PID)
+                self.loop.create_task(sib.step_until_terminated())
+                self.loop.drain(200)
+                self.sibling_state = sib.state.value
+            except Exception as e:  # noqa
+                self.sibling_state = 'error:' + type(e).__name__
             self.proc.add_cleanup(lambda: self.proc.h_cleanups.append(1))
             if start:
                 self.start()
